@@ -84,4 +84,14 @@ CHECKS = {
   "note": "Trusted: Coq kernel; adapters and tick scaling of cut points. Partial: window content / re-join sound are oracle + correspondence "
           "only. Relative notes whose reference is cut away are outside the window-content oracle (the statement cannot apply).",
  },
+ "C16": {
+  "text": "Theorems over Q for each of the 15 tags, every duration d >= 0 and every neighbouring-note context: the pieces of the figure sum "
+          "to d and are all non-negative; the library's builders (set_duration = limit_denominator(1000)) coincide with the exact figures "
+          "whenever every piece is on the library's resolution; realisation (builder + final assertion) never fails there; totals of melodies "
+          "are unchanged. Four defects were repaired in /repo (grupetto negative piece, retarded negative piece, roll/roll_fast TypeError, "
+          "interpolate on an already realised note). Two-tag combinations, tagged melodies/scores and their rendering are evaluated on the "
+          "implementation by the oracle.",
+  "note": "Trusted: Coq kernel; CPython Fractions; int(7*val/12) on floats = truncation. Combinations of two tags are not modelled (the second "
+          "builder works on a Melody through Melody.set_duration): oracle only.",
+ },
 }
